@@ -19,6 +19,10 @@ S1  TLC checks HotParamConc.tla exhaustively: the per-value in-flight SETS equal
     (live entries admitted since the reload <= figure <= all live entries) is the design-independent demand of the statement;
     the broken variant ExitCurrent=TRUE (= the pinned code: the exit looks the counter up again and re-reads the arguments) must
     violate FigureInRange / ZeroAfterDrain with reloads and pass without.
+    Other slots that fail: a request carries the point at which a user slot panics while it is served (Points: chk = rule-check slot in
+    front of the check, sb / sa = statistic slot in front of / behind the hot-parameter statistic slot when told "passed", cb / ca =
+    the same when told "completed"); the chain is fail-open; the figure is the number of live entries that were COUNTED, each holds
+    and releases exactly its unit.  Broken variants SkipAll (= seeded C06-f) and CompAbort (= the pinned exit loop) must be rejected.
 S2  scenarios: (a) one per transition of a small bounded instance (ACTION_CONSTRAINT Emit), (b) TLC random
     simulation of a larger one, (c) seeded random histories (3 ruled resources, specific items, index /
     negative index / attachment key, argument types cycled), (d) many-goroutine stress runs.
@@ -34,6 +38,9 @@ S2  scenarios: (a) one per transition of a small bounded instance (ACTION_CONSTR
     (g) reload in flight: one scenario per transition of a Reload instance, seeded random histories with reloads of every kind
     (same / thresholds / capacity / clear + load / drop / add / selector; LoadRules, LoadRulesOfResource, ClearRules + LoadRules) and
     directed ones (entries, a reload, entries for the same values, the earlier entries exit, probes).
+    (h) other slots that fail: the entries go through a chain of their own (api.WithSlotChain: BuildDefaultSlotChain / only the
+    hot-parameter slots) with three user slots; one scenario per transition of a Points instance, seeded random (sequential and
+    parked callers) and directed histories.
     Every scenario ends with a drain and a post-drain admission probe per value (gated ones: first every parked
     caller records and the value is probed with its entries still live).
 S3  harness/cmd/c06 replays them on the real code (hotspot.LoadRules, api.Entry(WithArgs/WithAttachments),
@@ -47,8 +54,11 @@ from vlib import main, write_ndjson, read_ndjson, MachineryError
 KEY_ALIAS = 'C06/live-entry-args/aliased-to-pooled-options'
 KEY_THR0 = 'C06/threshold-0/first-access-admitted'
 KEY_RELOAD = 'C06/reload-in-flight/exit-of-earlier-entry-releases-unit-of-new-counter'
+KEY_COMP = 'C06/slot-panic/completion-panic-of-earlier-stat-slot-skips-the-release'
 KEY_RESEL = 'C06/reload-in-flight/exit-re-reads-the-argument-with-the-new-selector'
 WHAT = {
+    KEY_COMP: 'a statistic slot in front of the hot-parameter statistic slot panicked in OnCompleted when an admitted, counted entry was exited: '
+              'SlotChain.exit stops at the first panic, the hot-parameter statistic slot is never told and the unit of the value is never released',
     KEY_RESEL: 'the selector (ParamIndex / ParamKey) of a hotspot rule was changed while entries were in flight (counters kept): the exit of an '
                'entry admitted before the reload re-reads its arguments with the NEW selector and releases the unit of another value (or none), '
                'so the value it was admitted with keeps a unit for ever and the other value\'s figure is too low',
@@ -79,7 +89,7 @@ INVS = 'TypeOK Conserved CounterOK Capped PendCapped ZeroAfterDrain DecisionOK O
 
 
 def mc_cfg(rules, maxops, maxlive, alias=False, res='MCRes', emit=False, inv=True, k=0, drop=False, values='MCValues', oth='MCOth',
-           view='view', nonone=False, fresh=False, both=False, maxrel=0, countold=False, exitcur=False):
+           view='view', nonone=False, fresh=False, both=False, maxrel=0, countold=False, exitcur=False, points='MCPoints0', skipall=False, compabort=False):
     """inv: True = all invariants, False = none, or the names to check"""
     ac = (['NoNone'] if nonone else []) + (['Emit'] if emit else [])
     return """SPECIFICATION Spec
@@ -100,13 +110,17 @@ CONSTANTS
   CountOld = %s
   ExitCurrent = %s
   Remap <- %s
+  Points <- %s
+  SkipAll = %s
+  CompAbort = %s
 VIEW %s
 %s
 %s
 CHECK_DEADLOCK FALSE
 """ % (res, oth, values, rules, maxlive, maxops, 'TRUE' if alias else 'FALSE', k, 'TRUE' if drop else 'FALSE',
        'TRUE' if fresh else 'FALSE', 'TRUE' if both else 'FALSE', ALTNAME.get(rules, rules) if maxrel else rules, maxrel,
-       'TRUE' if countold else 'FALSE', 'TRUE' if exitcur else 'FALSE', {'MCValues': 'MCRemap3', 'MCValues2': 'MCRemap2', 'MCValues1': 'MCRemap1'}[values], view,
+       'TRUE' if countold else 'FALSE', 'TRUE' if exitcur else 'FALSE', {'MCValues': 'MCRemap3', 'MCValues2': 'MCRemap2', 'MCValues1': 'MCRemap1'}[values], points,
+       'TRUE' if skipall else 'FALSE', 'TRUE' if compabort else 'FALSE', view,
        'INVARIANTS ' + (INVS if inv is True else inv) if inv else '',
        'ACTION_CONSTRAINT ' + ' '.join(ac) if ac else '')
 
@@ -181,6 +195,8 @@ def decorate(c, hist, tr, ruleset):
         idx, key = layout(rng)
         rules[res] = dict(thr=r['thr'], items=r['items'], idx=idx, key=key, cap=0)
     s = [dict(op='new', tr=tr, ty=rng.choice(TYPES), rules=rules)]
+    if any(o.get('pp', 'none') != 'none' for o in hist):
+        s[0]['chain'] = rng.choice(['user', 'custom'])          # a slot chain of its own with the user slots that panic
     used = set()
     gated = any(o['op'] == 'chk' for o in hist)
     if any(o['op'] == 'reload' for o in hist):
@@ -214,6 +230,8 @@ def decorate(c, hist, tr, ruleset):
                 # entries on a resource without a rule: same arity as the common case, so the pooled option slice is reused in place
                 args, atts = rng.choice([[o['v']], [o['v']], [o['v'], 'x']]), {}
             s.append(dict(op=o['op'], id=o['id'], res=o['res'], args=args, atts=atts, b=rng.choice([1, 1, 1, 2, 3])))
+            if o.get('pp', 'none') != 'none':
+                s[-1]['pp'] = o['pp']
         else:
             s.append(dict(op=o['op'], id=o['id']))      # exit / rec
         if rng.random() < (0.2 if gated else 0.08) and used:
@@ -360,6 +378,58 @@ def reload_scenario(c, tr, directed):
     return s
 
 
+POINTS = ['chk', 'sb', 'sa', 'cb', 'ca']
+
+
+def panic_scenario(c, tr, directed):
+    """entries through a slot chain of their own (the default slots / only the hot-parameter slots + three user slots) in which a user
+    slot panics for some requests: the rule-check slot in front of every check (chk), the statistic slot in front of (sb) / behind (sa)
+    the hot-parameter statistic slot when told "passed", the same two when told "completed" (cb / ca).  Sequential requests and
+    callers parked at chain.checked (not chk: that caller never gets there).  directed: short, one value, the panicking request at a
+    chosen fill level, probe, exit, probe."""
+    rng = c.rng
+    rules = random_rules(rng, zero_ok=(not directed and rng.random() < 0.15))
+    for r in rules.values():
+        r['cap'] = 0
+        if directed:
+            r['thr'] = rng.choice([1, 1, 2, 3])
+    s = [dict(op='new', tr=tr, ty=rng.choice(TYPES), rules=rules, chain=rng.choice(['user', 'user', 'custom']))]
+    live, pend, used, nid = [], [], set(), 0
+    vals = ['a', 'b', 'c'][:1 if directed else rng.randint(1, 3)]
+    k = 0 if directed or rng.random() < 0.5 else rng.choice([1, 2])
+    for _ in range(rng.randint(5, 14) if directed else rng.randint(8, 36)):
+        x = rng.random()
+        if x < 0.5 or not (live or pend):
+            nid += 1
+            res = rng.choice(sorted(rules) * 4 + ['o'])
+            v = rng.choice(vals) if rng.random() < 0.95 else '-'
+            if res in rules:
+                args, atts = shape(rng, rules[res]['idx'], rules[res]['key'], v)
+                used.add((res, v))
+            else:
+                args, atts = ([] if v == '-' else [v]), {}
+            op = 'chk' if len(pend) < k and rng.random() < 0.4 else 'req'
+            o = dict(op=op, id=nid, res=res, args=args, atts=atts, b=rng.choice([1, 1, 1, 2]))
+            if rng.random() < (0.6 if directed else 0.4):
+                o['pp'] = rng.choice([p for p in POINTS if not (op == 'chk' and p == 'chk')])
+            s.append(o)
+            (pend if op == 'chk' else live).append(nid)
+        elif x < 0.6 and pend:
+            i = pend.pop(rng.randrange(len(pend)))
+            s.append(dict(op='rec', id=i))
+            live.append(i)
+        elif x < 0.88 and live:
+            s.append(dict(op='exit', id=live.pop(rng.choice([0, -1, rng.randrange(len(live))]))))
+        else:
+            cand = [u for u in sorted(used) if u[1] != '-']
+            if cand:
+                res, v = rng.choice(cand)
+                a, t = shape(rng, rules[res]['idx'], rules[res]['key'], v)
+                s.append(dict(op='probe', res=res, args=a, atts=t))
+    finish(rng, s, rules, used, gated=True)
+    return s
+
+
 def random_gated_scenario(c, tr):
     """seeded random history with up to k callers parked between check and record while other entries of the same (and of
     other) values and resources are opened, exited and probed"""
@@ -495,6 +565,98 @@ def firstuse_scenario(c, tr, rounds):
 
 
 # ------------------------------------------------------------------------------------------ pipeline
+def ptlc(c, jobs, width=4):
+    """several small, independent TLC runs of HotParamConc_MC side by side (self-tests of the broken variants, scenario generation):
+    jobs = [dict(cfg_text=.., workers=.., args=[..], timeout=..)] -> [TLCResult] in the same order.  (A variant of Check.tlc, which
+    runs one TLC at a time: a dozen JVM starts in a row cost more than the model checking itself.)"""
+    import shutil, subprocess, time
+    from concurrent.futures import ThreadPoolExecutor
+    c._ptlc = getattr(c, '_ptlc', 0) + 1
+    batch = c._ptlc
+
+    def one(ij):
+        i, j = ij
+        d = os.path.join(c.scratch, 'ptlc%d_%d' % (batch, i))
+        os.makedirs(d)
+        for f in os.listdir(vlib.SPEC):
+            if f.startswith('HotParam') and f.endswith('.tla'):
+                shutil.copy(os.path.join(vlib.SPEC, f), d)
+        open(os.path.join(d, 'HotParamConc_MC.cfg'), 'w').write(j['cfg_text'])
+        cmd = ['java', '-XX:+UseParallelGC', '-Xmx' + j.get('heap', '4g'), '-Xss64m', '-cp', vlib.TLA_CP, 'tlc2.TLC', '-workers', str(j.get('workers', 2)),
+               '-metadir', os.path.join(d, 'md'), '-noGenerateSpecTE'] + list(j.get('args', [])) + ['HotParamConc_MC']
+        t = time.time()
+        try:
+            q = subprocess.run(cmd, cwd=d, stdout=subprocess.PIPE, stderr=subprocess.STDOUT, text=True, timeout=j.get('timeout', 900))
+            out, rc = q.stdout, q.returncode
+        except subprocess.TimeoutExpired as e:
+            out, rc = (e.stdout.decode() if isinstance(e.stdout, bytes) else (e.stdout or '')), 124
+            subprocess.run(['pkill', '-f', d], stdout=subprocess.DEVNULL, stderr=subprocess.DEVNULL)
+        r = vlib.TLCResult(out, rc, time.time() - t)
+        if rc == 124:
+            r.error = 'timeout'
+        shutil.rmtree(os.path.join(d, 'md'), ignore_errors=True)
+        return r
+
+    with ThreadPoolExecutor(width) as ex:
+        return list(ex.map(one, enumerate(jobs)))
+
+
+class SelfTests:
+    """the runs in which a deliberately broken variant must be rejected (expect = the invariant TLC has to report) or a variant
+    must pass (expect = None); collected while S1 goes along, run side by side at its end"""
+    def __init__(self):
+        self.jobs, self.models = [], []
+
+    def add(self, cfg_text, expect, what):
+        self.jobs.append((cfg_text, expect, what))
+
+    def model(self, cfg_text, what):
+        """an exhaustive run of the design model in which every invariant must hold (S1 proper; counts go into the evidence)"""
+        self.models.append((cfg_text, what))
+
+    def run_models(self, c, thorough):
+        # three runs side by side (16 CPUs: 5 TLC workers each); thorough: the instances are large, two at a time with 8 workers
+        rs = ptlc(c, [dict(cfg_text=m[0], workers=8 if thorough else 5, timeout=2400, heap='6g') for m in self.models], width=2 if thorough else 3)
+        for (cfg, what), r in zip(self.models, rs):
+            if r.error:
+                raise MachineryError('TLC failed on %s: %s\n%s' % (what, r.error, r.out[-3000:]))
+            c.cov['states'] += r.distinct
+            c.cov['transitions'] += r.generated
+            c.cov['tlc_runs'].append(dict(module='HotParamConc_MC', cfg=what, generated=r.generated, distinct=r.distinct, depth=r.depth,
+                                          wall_s=round(r.wall, 1), args='', result='ok' if r.completed else (r.violated or ('deadlock' if r.deadlock else r.error))))
+            c.log('S1 %s: %d distinct states, %d transitions, depth %d, %.0fs -> %s' % (
+                what, r.distinct, r.generated, r.depth, r.wall, 'no error' if r.completed else ('VIOLATED ' + str(r.violated) if r.violated else 'deadlock')))
+            if not r.completed:
+                c.inconclusive.append('%s: %s violated - the spec no longer describes a correct design' % (what, r.violated))
+
+    def run(self, c):
+        rs = ptlc(c, [dict(cfg_text=j[0], workers=2, timeout=600) for j in self.jobs])
+        for (cfg, expect, what), r in zip(self.jobs, rs):
+            if expect is None and not r.completed:
+                raise MachineryError('self-test failed: %s is expected to pass: %s' % (what, r.violated or r.error))
+            if expect is not None and r.violated != expect:
+                raise MachineryError('vacuity self-test failed: %s does not violate %s (%s)' % (what, expect, r.violated or r.error))
+        c.log('S1 self-tests: %d broken / control variants of HotParamConc judged as expected' % len(self.jobs))
+
+
+class Gen:
+    """scenario-generation runs of S2 (TLC prints the histories): everything listed with prefetch() runs side by side; get() hands a
+    result out (or runs it on the spot when it was not listed)"""
+    def __init__(self, c):
+        self.c, self.res = c, {}
+
+    def prefetch(self, jobs):
+        jobs = [j for j in jobs if (j[0], tuple(j[1])) not in self.res]
+        rs = ptlc(self.c, [dict(cfg_text=j[0], args=j[1], workers=1 if j[1] else 3, timeout=1200) for j in jobs])
+        for j, r in zip(jobs, rs):
+            self.res[(j[0], tuple(j[1]))] = r
+
+    def get(self, cfg_text, args=()):
+        if (cfg_text, tuple(args)) not in self.res:
+            self.prefetch([(cfg_text, list(args))])
+        return self.res.pop((cfg_text, tuple(args)))
+
+
 def split_traces(lines):
     out, cur = {}, None
     for l in lines:
@@ -569,6 +731,10 @@ def classify(exp, trace_lines):
         # (judged by HotParamConc_Trace) on this resource an entry admitted BEFORE the counters in use started (a reload that brought
         # new counters) has exited since, and the observed outcome needs a figure BELOW the number of live entries admitted since
         return KEY_RELOAD
+    if why in ('decision', 'tv', 'probe', 'probe-tv') and exp.get('cbx') and exp.get('under'):
+        # (judged by HotParamConc_Trace) on this resource a counted entry has exited while a statistic slot in front of the
+        # hot-parameter one panicked in OnCompleted, and the observed outcome needs a figure ABOVE the number of live counted entries
+        return KEY_COMP
     if why in ('decision', 'tv', 'probe', 'probe-tv') and exp.get('resel'):
         # (judged by HotParamConc_Trace) on this resource an entry has exited whose arguments the rule in force at its exit (selector
         # changed by a reload, counters kept) read as another value than the one it was admitted with
@@ -595,7 +761,7 @@ def describe(exp, obs):
             'probe': 'admission count for value %s is not threshold - live = %s' % (exp.get('v'), rng_(exp.get('nmax'), exp.get('n'))),
             'reload-rules-not-in-force': 'after the reload the number of rules in force is not the number of rules loaded',
             'probe-tv': 'TriggeredValue of the first rejected probe is not %s' % exp.get('tv'),
-            'panic': 'api.Entry panicked'}.get(why, str(why)) + '; observed ' + obs[:300]
+            'panic': 'a panic reached the caller of api.Entry / Exit'}.get(why, str(why)) + '; observed ' + obs[:300]
 
 
 def handle_mismatches(c, drv, scns, mism, tp, tag):
@@ -667,7 +833,7 @@ def nontrivial(s):
             if k in seen:
                 return True
             seen.add(k)
-        if o['op'] in ('stress', 'burst', 'reload'):
+        if o['op'] in ('stress', 'burst', 'reload') or o.get('pp'):
             return True
     return False
 
@@ -702,16 +868,13 @@ def check(c, tier, replay):
         c.sample(s[:6])
         return
     thorough = tier == 'thorough'
+    st = SelfTests()
     # S1 ---------------------------------------------------------------------------------
     runs = [('MCRules1', 5, 4, 'MCRes'), ('MCRules2', 5, 4, 'MCRes'), ('MCRules3', 6, 4, 'MCRes1')] if not thorough else \
            [('MCRules1', 7, 5, 'MCRes'), ('MCRules2', 7, 5, 'MCRes'), ('MCRules3', 8, 6, 'MCRes1')]
     for rules, mo, ml, res in runs:
-        r = c.model_check('HotParamConc_MC', cfg_text=mc_cfg(rules, mo, ml, res=res), workers=8, timeout=2400)
-        if not r.completed:
-            c.inconclusive.append('HotParamConc.tla: %s violated for %s - the spec no longer describes a correct design' % (r.violated, rules))
-    r = c.tlc('HotParamConc_MC', cfg_text=mc_cfg('MCRules1', 5, 4, alias=True), workers=4, timeout=600, count=False)
-    if r.violated != 'CounterOK':
-        raise MachineryError('vacuity self-test failed: the Alias=TRUE variant does not violate CounterOK (%s)' % (r.violated or r.error))
+        st.model(mc_cfg(rules, mo, ml, res=res), 'HotParamConc.tla for %s' % rules)
+    st.add(mc_cfg('MCRules1', 5, 4, alias=True), 'CounterOK', 'the Alias=TRUE variant')
     c.cov['spec_mutant'] = 'Alias=TRUE (exit keyed by the latest arguments) violates CounterOK'
     # concurrent admission path: Check -> (yield) -> Record, Exit separate, K callers inside at a time
     kruns = [('MCRules4', 6, 4, 'MCRes1', 'MCValues2', 2), ('MCRules5', 6, 4, 'MCRes1', 'MCValues2', 3), ('MCRules1', 4, 4, 'MCRes', 'MCValues', 2)] \
@@ -719,19 +882,10 @@ def check(c, tier, replay):
             [('MCRules4', 8, 5, 'MCRes1', 'MCValues2', 2), ('MCRules5', 7, 5, 'MCRes1', 'MCValues2', 3), ('MCRules1', 6, 4, 'MCRes', 'MCValues', 2),
              ('MCRules2', 6, 4, 'MCRes', 'MCValues', 2)]
     for rules, mo, ml, res, vals, k in kruns:
-        r = c.model_check('HotParamConc_MC', cfg_text=mc_cfg(rules, mo, ml, res=res, values=vals, k=k), workers=8, timeout=2400)
-        if not r.completed:
-            c.inconclusive.append('HotParamConc.tla (K=%d): %s violated for %s - the spec no longer describes a correct design' % (k, r.violated, rules))
-    r = c.tlc('HotParamConc_MC', cfg_text=mc_cfg('MCRules4', 6, 4, res='MCRes1', values='MCValues2', k=1, drop=True), workers=4, timeout=600, count=False)
-    if r.violated != 'CounterOK':
-        raise MachineryError('vacuity self-test failed: the DropZero=TRUE variant with K=1 does not violate CounterOK (%s)' % (r.violated or r.error))
-    r = c.tlc('HotParamConc_MC', cfg_text=mc_cfg('MCRules4', 6, 4, res='MCRes1', values='MCValues2', k=0, drop=True), workers=4, timeout=600, count=False)
-    if not r.completed:
-        raise MachineryError('self-test failed: the DropZero=TRUE variant is expected to pass when admission is one step (K=0): %s' % (r.violated or r.error))
-    r = c.tlc('HotParamConc_MC', cfg_text=mc_cfg('MCRules4', 6, 4, res='MCRes1', values='MCValues2', k=2, inv='CappedStrict'), workers=4, timeout=600,
-              count=False)
-    if r.violated != 'CappedStrict':
-        raise MachineryError('self-test failed: with K=2 the cap without slack must be exceeded in the model (%s)' % (r.violated or r.error))
+        st.model(mc_cfg(rules, mo, ml, res=res, values=vals, k=k), 'HotParamConc.tla (K=%d) for %s' % (k, rules))
+    st.add(mc_cfg('MCRules4', 6, 4, res='MCRes1', values='MCValues2', k=1, drop=True), 'CounterOK', 'the DropZero=TRUE variant with K=1')
+    st.add(mc_cfg('MCRules4', 6, 4, res='MCRes1', values='MCValues2', k=0, drop=True), None, 'the DropZero=TRUE variant when admission is one step (K=0)')
+    st.add(mc_cfg('MCRules4', 6, 4, res='MCRes1', values='MCValues2', k=2, inv='CappedStrict'), 'CappedStrict', 'the cap without slack for K=2')
     c.cov['spec_mutant_concurrent'] = ('DropZero=TRUE (cell removed when it returns to zero, record skips a missing cell) violates CounterOK for K=1 '
                                        'and passes for K=0; CappedStrict (no slack) is violated for K=2, Capped/PendCapped with slack K-1 hold')
     # first use of a value: the counter is created on demand, Lookup -> Create -> Record are separate steps of up to K callers
@@ -739,53 +893,77 @@ def check(c, tier, replay):
             [('MCRules4', 8, 5, 'MCRes1', 'MCValues2', 'MCOth0', 2), ('MCRules5', 7, 5, 'MCRes1', 'MCValues2', 'MCOth0', 3),
              ('MCRules6', 6, 5, 'MCRes', 'MCValues1', 'MCOth', 2), ('MCRules1', 4, 4, 'MCRes', 'MCValues', 'MCOth', 2)]
     for rules, mo, ml, res, vals, oth, k in fruns:
-        r = c.model_check('HotParamConc_MC', cfg_text=mc_cfg(rules, mo, ml, res=res, values=vals, oth=oth, k=k, fresh=True), workers=8, timeout=2400)
-        if not r.completed:
-            c.inconclusive.append('HotParamConc.tla (Fresh, K=%d): %s violated for %s - the spec no longer describes a correct design' % (
-                k, r.violated, rules))
+        st.model(mc_cfg(rules, mo, ml, res=res, values=vals, oth=oth, k=k, fresh=True), 'HotParamConc.tla (Fresh, K=%d) for %s' % (k, rules))
     for inv in (('OneObject', 'CounterOK') if not thorough else ('OneObject', 'CounterOK', 'ZeroAfterDrain')):
-        r = c.tlc('HotParamConc_MC', cfg_text=mc_cfg('MCRules4', 5, 4, res='MCRes1', values='MCValues2', oth='MCOth0', k=2, fresh=True, both=True,
-                                                      inv=inv), workers=2, timeout=600, count=False)
-        if r.violated != inv:
-            raise MachineryError('vacuity self-test failed: the BothInstall=TRUE variant with K=2 does not violate %s (%s)' % (inv, r.violated or r.error))
-    r = c.tlc('HotParamConc_MC', cfg_text=mc_cfg('MCRules4', 5, 4, res='MCRes1', values='MCValues2', oth='MCOth0', k=1, fresh=True, both=True),
-              workers=4, timeout=600, count=False)
-    if not r.completed:
-        raise MachineryError('self-test failed: the BothInstall=TRUE variant is expected to pass when no two callers are between lookup and '
-                             'record (K=1): %s' % (r.violated or r.error))
+        st.add(mc_cfg('MCRules4', 5, 4, res='MCRes1', values='MCValues2', oth='MCOth0', k=2, fresh=True, both=True, inv=inv), inv,
+               'the BothInstall=TRUE variant with K=2')
+    st.add(mc_cfg('MCRules4', 5, 4, res='MCRes1', values='MCValues2', oth='MCOth0', k=1, fresh=True, both=True), None,
+           'the BothInstall=TRUE variant when no two callers are between lookup and record (K=1)')
     c.cov['spec_mutant_first_use'] = ('BothInstall=TRUE (a caller that missed the lookup installs a counter without re-checking) violates OneObject '
                                       'and CounterOK%s for K=2 and passes for K=1' % (', ZeroAfterDrain' if thorough else ''))
     # reload in flight: the rule of a resource is replaced between admissions; both admissible designs (the new rule counts from zero /
     # the figures are carried over), with pre-existing cells and with cells created on demand
-    rruns = [('MCRules3', 5, 4, 'MCRes1', 'MCValues2', 'MCOth0', 2, False, False), ('MCRules3', 5, 4, 'MCRes1', 'MCValues2', 'MCOth0', 2, True, False),
-             ('MCRules3', 5, 4, 'MCRes1', 'MCValues2', 'MCOth0', 2, False, True)] if not thorough else \
+    rruns = [('MCRules3', 5, 4, 'MCRes1', 'MCValues2', 'MCOth0', 2, False, False), ('MCRules3', 4, 4, 'MCRes1', 'MCValues2', 'MCOth0', 2, True, False),
+             ('MCRules3', 4, 4, 'MCRes1', 'MCValues2', 'MCOth0', 2, False, True)] if not thorough else \
             [('MCRules3', 6, 5, 'MCRes1', 'MCValues2', 'MCOth0', 2, False, False), ('MCRules3', 6, 5, 'MCRes1', 'MCValues2', 'MCOth0', 2, True, False),
              ('MCRules3', 6, 5, 'MCRes1', 'MCValues2', 'MCOth0', 2, False, True), ('MCRules1', 4, 3, 'MCRes', 'MCValues', 'MCOth', 2, False, False)]
     for rules, mo, ml, res, vals, oth, mr, co, fr in rruns:
-        r = c.model_check('HotParamConc_MC', cfg_text=mc_cfg(rules, mo, ml, res=res, values=vals, oth=oth, maxrel=mr, countold=co, fresh=fr),
-                          workers=8, timeout=2400)
-        if not r.completed:
-            c.inconclusive.append('HotParamConc.tla (MaxReloads=%d, CountOld=%s): %s violated for %s - the spec no longer describes a correct design' % (
-                mr, co, r.violated, rules))
+        st.model(mc_cfg(rules, mo, ml, res=res, values=vals, oth=oth, maxrel=mr, countold=co, fresh=fr),
+                 'HotParamConc.tla (MaxReloads=%d, CountOld=%s, Fresh=%s) for %s' % (mr, co, fr, rules))
     for inv, fr in ((('FigureInRange', True), ('ZeroAfterDrain', False)) if not thorough else
                     (('FigureInRange', True), ('ZeroAfterDrain', False), ('DecisionOK', True), ('CounterOK', False))):
-        r = c.tlc('HotParamConc_MC', cfg_text=mc_cfg('MCRules3', 5, 4, res='MCRes1', values='MCValues2', oth='MCOth0', maxrel=2, fresh=fr, exitcur=True,
-                                                      inv=inv), workers=2, timeout=600, count=False)
-        if r.violated != inv:
-            raise MachineryError('vacuity self-test failed: the ExitCurrent=TRUE variant with reloads does not violate %s (%s)' % (inv, r.violated or r.error))
-    r = c.tlc('HotParamConc_MC', cfg_text=mc_cfg('MCRules3', 5, 4, res='MCRes1', values='MCValues2', oth='MCOth0', maxrel=0, fresh=True, exitcur=True),
-              workers=4, timeout=600, count=False)
-    if not r.completed:
-        raise MachineryError('self-test failed: the ExitCurrent=TRUE variant is expected to pass when the rules never change (MaxReloads=0): %s' % (
-            r.violated or r.error))
+        st.add(mc_cfg('MCRules3', 5, 4, res='MCRes1', values='MCValues2', oth='MCOth0', maxrel=2, fresh=fr, exitcur=True, inv=inv), inv,
+               'the ExitCurrent=TRUE variant with reloads')
+    st.add(mc_cfg('MCRules3', 5, 4, res='MCRes1', values='MCValues2', oth='MCOth0', maxrel=0, fresh=True, exitcur=True), None,
+           'the ExitCurrent=TRUE variant when the rules never change (MaxReloads=0)')
     c.cov['spec_mutant_reload'] = ('ExitCurrent=TRUE (an exit releases on whatever counter is current, for the value the rule in force reads then) violates FigureInRange and '
                                    'ZeroAfterDrain%s with reloads and passes without' % (', DecisionOK, CounterOK' if thorough else ''))
+    # other slots that fail: a user slot panics while a request is served (in front of the check; in front of / behind the hot-parameter
+    # statistic slot when told "passed" or "completed"); the chain is fail-open, a counted entry holds and releases exactly its unit
+    pruns = [('MCRules3', 4, 4, 'MCRes1', 'MCValues2', 'MCOth0', 0, 'MCPointsAll'), ('MCRules4', 3, 3, 'MCRes1', 'MCValues2', 'MCOth0', 2, 'MCPointsStat')] \
+        if not thorough else \
+            [('MCRules3', 5, 4, 'MCRes1', 'MCValues2', 'MCOth0', 0, 'MCPointsAll'), ('MCRules4', 5, 4, 'MCRes1', 'MCValues2', 'MCOth0', 2, 'MCPointsStat'),
+             ('MCRules1', 4, 3, 'MCRes', 'MCValues', 'MCOth', 0, 'MCPointsAll')]
+    for rules, mo, ml, res, vals, oth, k, pts in pruns:
+        st.model(mc_cfg(rules, mo, ml, res=res, values=vals, oth=oth, k=k, points=pts), 'HotParamConc.tla (Points=%s, K=%d) for %s' % (pts, k, rules))
+    for kw, inv in ((dict(skipall=True), 'CounterOK'), (dict(compabort=True), 'ZeroAfterDrain')):
+        st.add(mc_cfg('MCRules3', 4, 4, res='MCRes1', values='MCValues2', oth='MCOth0', points='MCPointsAll', inv=inv, **kw), inv, 'the %s variant' % kw)
+    st.add(mc_cfg('MCRules3', 4, 4, res='MCRes1', values='MCValues2', oth='MCOth0', skipall=True, compabort=True), None,
+           'the SkipAll / CompAbort variants when no slot ever panics')
+    st.run_models(c, thorough)
+    st.run(c)
+    c.cov['spec_mutant_slot_panic'] = ('SkipAll=TRUE (an entry let through after ANY recovered panic is never completed) violates CounterOK, CompAbort=TRUE '
+                                       '(a panic of an earlier statistic slot at the exit ends the completion) violates ZeroAfterDrain; both pass when '
+                                       'no slot panics')
     c.cov['exhaustive'] = True
     # S2 ---------------------------------------------------------------------------------
     scns, tr = [], 0
-    for rules, mo, ml, res in ([('MCRules1', 4, 3, 'MCRes'), ('MCRules2', 4, 3, 'MCRes')] if not thorough else
-                               [('MCRules1', 5, 4, 'MCRes'), ('MCRules2', 5, 4, 'MCRes'), ('MCRules3', 6, 4, 'MCRes1')]):
-        r = c.tlc('HotParamConc_MC', cfg_text=mc_cfg(rules, mo, ml, res=res, emit=True, inv=False), workers=4, timeout=1200, count=False)
+    cover_runs = [('MCRules1', 4, 3, 'MCRes'), ('MCRules2', 4, 3, 'MCRes')] if not thorough else \
+                 [('MCRules1', 5, 4, 'MCRes'), ('MCRules2', 5, 4, 'MCRes'), ('MCRules3', 6, 4, 'MCRes1')]
+    sim_runs = ['MCRules1'] if not thorough else ['MCRules1', 'MCRules2', 'MCRules3']
+    sim_num = 150 if not thorough else 1500
+    sim_args = ['-simulate', 'num=%d' % sim_num, '-depth', '20', '-seed', str(c.seed)]
+    sched_runs = [(3, None), (4, 250)] if not thorough else [(3, None), (4, None)]
+    kcover_runs = [('MCRules4', 4, 3, 'MCRes1', 'MCValues2', 2), ('MCRules5', 4, 4, 'MCRes1', 'MCValues2', 3)] if not thorough else \
+                  [('MCRules4', 5, 4, 'MCRes1', 'MCValues2', 2), ('MCRules5', 5, 4, 'MCRes1', 'MCValues2', 3), ('MCRules1', 4, 3, 'MCRes', 'MCValues', 2)]
+    reload_runs = [('MCRules3', 4, 3, 'MCRes1', 'MCValues2', 'MCOth0', 1, 500)] if not thorough else \
+                  [('MCRules3', 4, 4, 'MCRes1', 'MCValues2', 'MCOth0', 2, 5000), ('MCRules1', 3, 3, 'MCRes', 'MCValues', 'MCOth', 1, 5000)]
+    panic_runs = [('MCRules3', 3, 3, 'MCRes1', 'MCValues2', 'MCOth0', 0, 'MCPointsAll', 400)] if not thorough else \
+                 [('MCRules3', 4, 3, 'MCRes1', 'MCValues2', 'MCOth0', 0, 'MCPointsAll', 5000), ('MCRules4', 3, 3, 'MCRes1', 'MCValues2', 'MCOth0', 2, 'MCPointsStat', 3000)]
+    cfg_cover = lambda rules, mo, ml, res: mc_cfg(rules, mo, ml, res=res, emit=True, inv=False)
+    cfg_sim = lambda rules: mc_cfg(rules, 14, 6, res='MCRes1' if rules == 'MCRules3' else 'MCRes', emit=True, inv=False)
+    cfg_sched = lambda ncall: mc_cfg('MCRules4', ncall, ncall, res='MCRes1', values='MCValues1', oth='MCOth0', k=2, emit=True, inv=False, view='hview',
+                                     nonone=True)
+    cfg_kcover = lambda rules, mo, ml, res, vals, k: mc_cfg(rules, mo, ml, res=res, values=vals, k=k, emit=True, inv=False)
+    cfg_reload = lambda rules, mo, ml, res, vals, oth, mr: mc_cfg(rules, mo, ml, res=res, values=vals, oth=oth, maxrel=mr, emit=True, inv=False)
+    cfg_panic = lambda rules, mo, ml, res, vals, oth, k, pts: mc_cfg(rules, mo, ml, res=res, values=vals, oth=oth, k=k, points=pts, emit=True, inv=False)
+    gen = Gen(c)
+    # all generation runs side by side (the histories are turned into scenarios below, in a fixed order: the seeded choices do not depend
+    # on which run finishes first)
+    gen.prefetch([(cfg_cover(*x), []) for x in cover_runs] + [(cfg_sim(x), sim_args) for x in sim_runs] + [(cfg_sched(x[0]), []) for x in sched_runs] +
+                 [(cfg_kcover(*x), []) for x in kcover_runs] + [(cfg_reload(*x[:7]), []) for x in reload_runs] + [(cfg_panic(*x[:8]), []) for x in panic_runs])
+    for rules, mo, ml, res in cover_runs:
+        r = gen.get(cfg_cover(rules, mo, ml, res))
         if r.error:
             raise MachineryError('scenario generation failed: %s' % r.error)
         hs = r.json_prints()
@@ -798,11 +976,9 @@ def check(c, tier, replay):
             scns.append(decorate(c, hist, tr, rules))
         c.log('S2 transition cover %s: %d transitions -> %d scenarios' % (rules, len(hs), len(keep)))
     cover_n = len(scns)
-    for rules in (['MCRules1'] if not thorough else ['MCRules1', 'MCRules2', 'MCRules3']):
-        res = 'MCRes1' if rules == 'MCRules3' else 'MCRes'
-        num = 150 if not thorough else 1500
-        r = c.tlc('HotParamConc_MC', cfg_text=mc_cfg(rules, 14, 6, res=res, emit=True, inv=False), workers=1, timeout=900, count=False,
-                  args=['-simulate', 'num=%d' % num, '-depth', '20', '-seed', str(c.seed)])
+    for rules in sim_runs:
+        num = sim_num
+        r = gen.get(cfg_sim(rules), sim_args)
         keep = maximal(r.json_prints())
         if len(keep) > num * 3:     # (simulation mode prints every candidate successor of every step)
             keep = c.rng.sample(keep, num * 3)
@@ -813,9 +989,8 @@ def check(c, tier, replay):
     # gated schedules (concurrent admission path)
     gs = []
     #  - every interleaving of the check / record / exit steps of 3 callers of ONE value (threshold 2); thorough: 4 callers
-    for ncall, cap in ([(3, None), (4, 500)] if not thorough else [(3, None), (4, None)]):
-        r = c.tlc('HotParamConc_MC', cfg_text=mc_cfg('MCRules4', ncall, ncall, res='MCRes1', values='MCValues1', oth='MCOth0', k=2, emit=True,
-                                                      inv=False, view='hview', nonone=True), workers=4, timeout=1200, count=False)
+    for ncall, cap in sched_runs:
+        r = gen.get(cfg_sched(ncall))
         if r.error:
             raise MachineryError('schedule enumeration failed: %s' % r.error)
         hs = r.json_prints()
@@ -829,11 +1004,8 @@ def check(c, tier, replay):
         c.cov['schedules_%d_callers' % ncall] = '%d histories, %d maximal with a parked caller, %d replayed' % (len(hs), n_all, len(keep))
         c.log('S2 schedule enumeration, %d callers of one value, K=2: %d histories -> %d maximal -> %d scenarios' % (ncall, len(hs), n_all, len(keep)))
     #  - one per transition of larger K-instances (two values / two resources + unruled resource, K = 2 and 3)
-    for rules, mo, ml, res, vals, k in ([('MCRules4', 4, 3, 'MCRes1', 'MCValues2', 2), ('MCRules5', 4, 4, 'MCRes1', 'MCValues2', 3)] if not thorough else
-                                        [('MCRules4', 5, 4, 'MCRes1', 'MCValues2', 2), ('MCRules5', 5, 4, 'MCRes1', 'MCValues2', 3),
-                                         ('MCRules1', 4, 3, 'MCRes', 'MCValues', 2)]):
-        r = c.tlc('HotParamConc_MC', cfg_text=mc_cfg(rules, mo, ml, res=res, values=vals, k=k, emit=True, inv=False), workers=4, timeout=1200,
-                  count=False)
+    for rules, mo, ml, res, vals, k in kcover_runs:
+        r = gen.get(cfg_kcover(rules, mo, ml, res, vals, k))
         if r.error:
             raise MachineryError('scenario generation failed: %s' % r.error)
         hs = r.json_prints()
@@ -865,10 +1037,8 @@ def check(c, tier, replay):
         fu.append(firstuse_scenario(c, tr, rounds))
     # reload in flight: one per transition of a Reload instance, random histories with reloads of every kind, directed ones
     rl = []
-    for rules, mo, ml, res, vals, oth, mr, cap in ([('MCRules3', 4, 3, 'MCRes1', 'MCValues2', 'MCOth0', 2, 500)] if not thorough else
-                                                   [('MCRules3', 4, 4, 'MCRes1', 'MCValues2', 'MCOth0', 2, 5000), ('MCRules1', 3, 3, 'MCRes', 'MCValues', 'MCOth', 1, 5000)]):
-        r = c.tlc('HotParamConc_MC', cfg_text=mc_cfg(rules, mo, ml, res=res, values=vals, oth=oth, maxrel=mr, emit=True, inv=False), workers=4,
-                  timeout=1200, count=False)
+    for rules, mo, ml, res, vals, oth, mr, cap in reload_runs:
+        r = gen.get(cfg_reload(rules, mo, ml, res, vals, oth, mr))
         if r.error:
             raise MachineryError('scenario generation failed: %s' % r.error)
         hs = r.json_prints()
@@ -883,9 +1053,27 @@ def check(c, tier, replay):
     for i in range(500 if not thorough else 6000):
         tr += 1
         rl.append(reload_scenario(c, tr, directed=i % 2 == 0))
+    # other slots that fail: one per transition of a Points instance, seeded random (sequential + parked callers) and directed histories
+    pn = []
+    for rules, mo, ml, res, vals, oth, k, pts, cap in panic_runs:
+        r = gen.get(cfg_panic(rules, mo, ml, res, vals, oth, k, pts))
+        if r.error:
+            raise MachineryError('scenario generation failed: %s' % r.error)
+        hs = r.json_prints()
+        keep = [x for x in maximal(hs) if any(o.get('pp', 'none') != 'none' for o in x)]
+        if len(keep) > cap:
+            keep = c.rng.sample(keep, cap)
+        for hist in keep:
+            tr += 1
+            pn.append(decorate(c, hist, tr, rules))
+        c.log('S2 transition cover %s %s K=%d: %d transitions -> %d scenarios with a panicking slot' % (rules, pts, k, len(hs), len(keep)))
+    panic_tlc = len(pn)
+    for i in range(400 if not thorough else 5000):
+        tr += 1
+        pn.append(panic_scenario(c, tr, directed=i % 2 == 0))
     # S3 + S4 ----------------------------------------------------------------------------
     selftested = False
-    for tag, group in (('tlc', scns), ('gated', gs), ('rand', rs), ('first', fu), ('stress', st), ('reload', rl)):
+    for tag, group in (('tlc', scns), ('gated', gs), ('rand', rs), ('first', fu), ('stress', st), ('reload', rl), ('panic', pn)):
         for i in range(0, len(group), 3000):
             part = group[i:i + 3000]
             try:
@@ -910,10 +1098,12 @@ def check(c, tier, replay):
                 c.inconclusive.append('confirmation of a %s mismatch did not run to completion: %s' % (tag, str(e)[:300]))
             if tag == 'first' and i == 0:
                 binding_selftest(c, tp, {m[0] for m in mism}, first_use=True)
-    allscn = scns + gs + rs + fu + st + rl
+    allscn = scns + gs + rs + fu + st + rl + pn
     c.cov['gated_scenarios'] = '%d from TLC (schedule enumeration + transition cover of K-instances), %d seeded random' % (gated_tlc, len(gs) - gated_tlc)
     c.cov['distinct_nontrivial'] = len({json.dumps(s[1:], sort_keys=True) for s in allscn if nontrivial(s)})
     c.cov['stress_runs'] = len(st)
+    c.cov['slot_panic_scenarios'] = '%d from TLC (one per transition of a Points instance), %d seeded random / directed; %d requests with a panicking slot' % (
+        panic_tlc, len(pn) - panic_tlc, sum(1 for s in pn for o in s if o.get('pp')))
     c.cov['reload_scenarios'] = '%d from TLC (one per transition of a Reload instance), %d seeded random / directed; %d reloads in all' % (
         reload_tlc, len(rl) - reload_tlc, sum(1 for s in rl for o in s if o['op'] == 'reload'))
     c.cov['first_use'] = '%d traces, %d bursts (G goroutines at a spin barrier request the same value), %d of them for a never-seen value' % (
@@ -922,7 +1112,8 @@ def check(c, tier, replay):
                      '+ many-goroutine stress runs, each ending in a drain and a post-drain admission probe per value; non-trivial = distinct '
                      'scenario in which some (resource, argument list) is requested at least twice (so the per-value count decides), or '
                      'another entry is opened / exited while a caller is parked between its check and its record (gated schedules from '
-                     'HotParamConc with K >= 1), or a concurrent stress run / burst, or a rule table replaced in the middle of the history' % cover_n)
+                     'HotParamConc with K >= 1), or a concurrent stress run / burst, or a rule table replaced in the middle of the history, '
+                     'or a request during which a user slot of the chain panics' % cover_n)
     c.sample(scns[len(scns) // 2][:8])
     c.sample(gs[0][:10])
     c.sample(rs[0][:8])
